@@ -39,18 +39,24 @@ def unroot (n : Nat) (d : DNA) : Option (List DNA) :=
 def admissible (distinct sorted : Bool) (prior : List Nat) (c : Nat) : Bool :=
   (!distinct || !prior.contains c) && (!sorted || prior.all (· ≤ c))
 
+/-- `F 0 b₀ ++ F 1 b₁ ++ …` — concatenation over a list with its running index. -/
+def walkIdx {β γ : Type} (F : Nat → β → List γ) : Nat → List β → List γ
+  | _, [] => []
+  | i, b :: bs => F i b ++ walkIdx F (i + 1) bs
+
 /-- All sequences of `k` further single-choice nodes after `prior`, in lexicographic order;
-`subs[c]` lists the admissible children lists below candidate `c`. -/
+`subs[c]` lists the admissible children lists below candidate `c`: for each admissible next
+candidate `c` in ascending order, for each children list below it, for each completion. -/
 def enumSeq (subs : List (List (List DNA))) (distinct sorted : Bool) :
     List Nat → Nat → List (List DNA)
   | _, 0 => [[]]
   | prior, k + 1 =>
-    (List.range subs.length).flatMap fun c =>
+    walkIdx (fun c ksl =>
       if admissible distinct sorted prior c then
-        (subs.getD c []).flatMap fun ks =>
+        ksl.flatMap fun ks =>
           (enumSeq subs distinct sorted (prior ++ [c]) k).map fun rest =>
             DNA.mk (.int (c : Nat)) ks :: rest
-      else []
+      else []) 0 subs
 
 mutual
   /-- All DNAs of a decision point, ascending. Float and custom points have infinitely many
